@@ -9,11 +9,17 @@
 EXTENDS UcfgPack, Layers, Json, SequencesExt
 
 Unsupported == {T("iface"), T("chan"), T("func"), T("complex")}
-ElemTypes == {T(k) : k \in NumKinds} \cup {T("bool"), T("string"), T("dur"), T("ustr"), T("uany"), T("iface"), Inner}
+\* nstr, nbool, nint, nfloat: NAMED primitive types without methods (type Name string)
+ElemTypes == {T(k) : k \in NumKinds} \cup {T("bool"), T("string"), T("dur"), T("ustr"), T("uany"), T("iface"), Inner,
+                                           T("nstr"), T("nbool"), T("nint"), T("nfloat"),
+                                           \* method sets that look like an unpacker but are none; interface types with methods
+                                           T("unores"), T("unoresany"), T("ubad2"), T("uother"), T("uvalrc"), T("iunp"), T("istr"), T("ierr")}
 TargetTypes == ElemTypes \cup Unsupported
                \cup {TPtr(e) : e \in ElemTypes} \cup {TSlice(e) : e \in ElemTypes} \cup {TArr(e) : e \in ElemTypes} \cup {TMap(e) : e \in ElemTypes}
                \cup {TPtr(TSlice(T("int64"))), TPtr(TArr(T("int64"))), TSlice(TArr(T("string"))), TArr(TSlice(T("int64"))), TMap(TArr(T("int64"))),
-                     TSlice(TMap(T("string"))), TPtr(TPtr(T("int64"))), TSlice(T("chan")), TMap(T("func")), TPtr(T("complex")), TArr(TPtr(Inner))}
+                     TSlice(TMap(T("string"))), TPtr(TPtr(T("int64"))), TSlice(T("chan")), TMap(T("func")), TPtr(T("complex")), TArr(TPtr(Inner)),
+                     \* collections of POINTERS to unpackers / structs (pre-filled with non-nil pointers in the "allocated" variant)
+                     TSlice(TPtr(T("uany"))), TArr(TPtr(T("ustr"))), TMap(TPtr(T("uany"))), TSlice(TPtr(Inner)), TMap(TPtr(Inner)), TSlice(TPtr(T("int64")))}
 VTags == {"", "required", "nonzero", "positive", "min=1", "max=5"}
 Settings == {None, Nil, PN("3"), PN("-1"), PN("1.5"), PS("x"), PS(""), PB(TRUE),
              N([q \in {"k"} |-> PN("1")], <<>>), N([q \in {"x", "y"} |-> IF q = "x" THEN PN("1") ELSE N([z \in {"z"} |-> PS("s")], <<>>)], <<>>),
